@@ -21,11 +21,13 @@ struct Spec {
     rc: Value,                    // extra .emmyrc.json content (diagnostics section)
     planted: Vec<(String, String, usize)>, // (rel file, code, 0-based line) the generator expects
     features: BTreeSet<String>,
+    slow: bool, // large workspace checked with a reader that starts late (more results than the channel holds)
 }
 
 impl Spec {
     fn to_json(&self) -> Value {
-        json!({"files": self.files, "rc": self.rc, "planted": self.planted, "features": self.features})
+        json!({"files": self.files, "rc": self.rc, "planted": self.planted, "features": self.features,
+               "scenario": if self.slow { "slow-reader" } else { "plain" }})
     }
 }
 
@@ -164,6 +166,26 @@ fn gen_spec(rng: &mut Rng, mode: usize) -> Spec {
     sp
 }
 
+/// more main-workspace files than the result channel holds (100), one known diagnostic in most of them
+fn gen_large(rng: &mut Rng, n: usize, one_bad: bool) -> Spec {
+    let mut sp = Spec::default();
+    sp.slow = true;
+    let bad = rng.below(n);
+    for i in 0..n {
+        let rel = format!("main/d{}/f{}.lua", i % 7, i);
+        let clean = if one_bad { i != bad } else { rng.chance(1, 10) };
+        if clean {
+            sp.files.push((rel, format!("local v{} = {}\nprint(v{})\n", i, i, i)));
+        } else {
+            sp.planted.push((rel.clone(), "undefined-global".into(), 0));
+            sp.files.push((rel, format!("print(undef_large_{})\n", i)));
+        }
+    }
+    sp.rc = json!({"diagnostics": {}});
+    sp.features.insert(if one_bad { "large-one-bad-file".into() } else { "large-workspace".into() });
+    sp
+}
+
 fn fixed_specs() -> Vec<Spec> {
     let mut v = Vec::new();
     let mut a = Spec::default();
@@ -223,6 +245,7 @@ struct Opts {
     filter: Option<&'static str>, // error | warn | info | hint
     wae: bool,
     to_file: bool,
+    slow_ms: u64, // stdout is a pipe that is only read after this delay
 }
 
 fn filter_level(f: Option<&str>) -> Option<u32> {
@@ -243,10 +266,24 @@ fn all_opts() -> Vec<Opts> {
                     if format == "text" && to_file {
                         continue;
                     }
-                    v.push(Opts { format, filter, wae, to_file });
+                    v.push(Opts { format, filter, wae, to_file, slow_ms: 0 });
                 }
             }
         }
+    }
+    v
+}
+
+/// option sets of the large-workspace scenario: stdout into a late reader, and a report file
+fn slow_opts(k: usize, delay: u64) -> Vec<Opts> {
+    let mut v = vec![
+        Opts { format: "json", filter: None, wae: false, to_file: false, slow_ms: delay },
+        Opts { format: "json", filter: None, wae: false, to_file: true, slow_ms: 0 },
+    ];
+    if k >= 8 {
+        v.push(Opts { format: "text", filter: Some("error"), wae: false, to_file: false, slow_ms: delay });
+        v.push(Opts { format: "sarif", filter: None, wae: true, to_file: true, slow_ms: 0 });
+        v.push(Opts { format: "sarif", filter: Some("warn"), wae: false, to_file: false, slow_ms: delay });
     }
     v
 }
@@ -447,7 +484,17 @@ fn run_check(bin: &str, dir: &Path, o: &Opts, tag: usize) -> Observed {
         cmd.arg("--output").arg(&outfile);
     }
     cmd.arg(dir.join("main"));
-    let r = match cmd.output() {
+    let res = if o.slow_ms > 0 {
+        // the reader of the pipe starts late: the report loop blocks in println! while the workers finish
+        cmd.stdout(std::process::Stdio::piped()).stderr(std::process::Stdio::piped()).stdin(std::process::Stdio::null());
+        cmd.spawn().and_then(|child| {
+            std::thread::sleep(std::time::Duration::from_millis(o.slow_ms));
+            child.wait_with_output()
+        })
+    } else {
+        cmd.output()
+    };
+    let r = match res {
         Ok(r) => r,
         Err(e) => return Observed { status: None, blocks: vec![], counts: None, parse_error: Some(format!("spawn: {e}")), stderr_tail: String::new() },
     };
@@ -519,8 +566,9 @@ fn passes(filter: Option<u32>, sev: Option<u32>) -> bool {
 fn oracle(truth: &[FileDiags], o: &Opts, obs: &Observed) -> Vec<Viol> {
     let mut out = Vec::new();
     let fl = filter_level(o.filter);
-    let desc = format!("-f {}{}{}{}", o.format, o.filter.map(|f| format!(" --severity {}", f)).unwrap_or_default(),
-        if o.wae { " --warnings-as-errors" } else { "" }, if o.to_file { " --output <file>" } else { "" });
+    let desc = format!("-f {}{}{}{}{}", o.format, o.filter.map(|f| format!(" --severity {}", f)).unwrap_or_default(),
+        if o.wae { " --warnings-as-errors" } else { "" }, if o.to_file { " --output <file>" } else { "" },
+        if o.slow_ms > 0 { format!(" | (sleep {}ms; cat)", o.slow_ms) } else { String::new() });
     if let Some(e) = &obs.parse_error {
         out.push(Viol { sig: format!("report-unparsable-{}", o.format), what: format!("{}: {}", desc, e) });
         return out;
@@ -585,7 +633,8 @@ fn oracle(truth: &[FileDiags], o: &Opts, obs: &Observed) -> Vec<Viol> {
     for (f, want) in &exp {
         let have = got.get(f).cloned().unwrap_or_default();
         if o.format == "json" && !got.contains_key(f) {
-            out.push(Viol { sig: "report-missing-file-json".into(), what: format!("{}: main-workspace file {} has no block in the JSON report", desc, f) });
+            let missing = exp.keys().filter(|k| !got.contains_key(*k)).count();
+            out.push(Viol { sig: "report-missing-file-json".into(), what: format!("{}: main-workspace file {} has no block in the JSON report ({} of {} files missing)", desc, f, missing, exp.len()) });
         }
         let mut hm: HashMap<&String, i64> = HashMap::new();
         for h in &have {
@@ -695,6 +744,7 @@ fn spec_from_json(c: &Value) -> Spec {
     sp.rc = c["rc"].clone();
     sp.planted = serde_json::from_value(c["planted"].clone()).unwrap_or_default();
     sp.features = serde_json::from_value(c["features"].clone()).unwrap_or_default();
+    sp.slow = c["scenario"] == json!("slow-reader");
     sp
 }
 
@@ -736,13 +786,31 @@ fn main() {
     let base = base.canonicalize().unwrap();
     let mode = args.cmd.clone();
     let corpus = args.str("corpus", "/verif/corpus/C36");
+    let large = args.usize("large", 0);
+    let delay = args.u64("delay", 5000);
     let all: Vec<Spec> = match mode.as_str() {
-        "corr" => specs(seed, n, 0x1000, &corpus),
-        "search" => specs(seed, n, 0x2000, &corpus),
+        // the large-workspace scenario belongs to the search (the model's case would only be bigger, not different)
+        "corr" => specs(seed, n, 0x1000, &corpus).into_iter().filter(|s| !s.slow).collect(),
+        "search" => {
+            let mut v = specs(seed, n, 0x2000, &corpus);
+            let mut rng = Rng::new(seed ^ 0x1A26E);
+            for k in 0..large {
+                let nfiles = 150 + rng.below(260);
+                v.push(gen_large(&mut rng, nfiles, k % 2 == 1));
+            }
+            v
+        }
         "one" => {
             let v: Value = serde_json::from_str(&std::fs::read_to_string(args.str("case", "")).expect("case file")).expect("case json");
             let c = if v.get("spec").is_some() { v["spec"].clone() } else { v.clone() };
             vec![spec_from_json(&c)]
+        }
+        "dump-large" => {
+            let mut rng = Rng::new(0x1A26E);
+            let sp = gen_large(&mut rng, args.usize("files", 320), false);
+            std::fs::create_dir_all(&corpus).unwrap();
+            std::fs::write(Path::new(&corpus).join("witness04_large.json"), serde_json::to_string(&sp.to_json()).unwrap()).unwrap();
+            return;
         }
         "dump-fixed" => {
             for (i, sp) in fixed_specs().iter().enumerate() {
@@ -770,7 +838,7 @@ fn main() {
         let dir = base.join(format!("{}{}", mode, idx));
         materialise(&dir, &sp);
         let truth = ground_truth(&dir);
-        let opts = if mode == "one" { all_opts() } else { pick_opts(&mut rng, combos) };
+        let opts = if sp.slow { slow_opts(if mode == "one" { 8 } else { combos }, delay) } else if mode == "one" { all_opts() } else { pick_opts(&mut rng, combos) };
         prepared.push(Prepared { idx, sp, dir, truth, opts });
     }
     // stage 2: the real binary, in parallel
@@ -839,7 +907,7 @@ fn main() {
                 if seen.insert(v.sig.clone()) {
                     nviol += 1;
                     println!("{}", json!({"signature": v.sig, "what": v.what, "case": p.idx, "spec": p.sp.to_json(),
-                        "opts": {"format": o.format, "filter": o.filter, "wae": o.wae, "to_file": o.to_file}}));
+                        "opts": {"format": o.format, "filter": o.filter, "wae": o.wae, "to_file": o.to_file, "slow_reader_ms": o.slow_ms}}));
                 }
             }
         }
